@@ -255,8 +255,13 @@ class _ReusablePoolExecutor(ProcessPoolExecutor):
                 time.sleep(1e-3)
 
             self._adjust_process_count()
+            # Wait for the new workers to be started. A worker that already
+            # exited (idle timeout, crash) will never be alive again: do not
+            # wait for it.
             processes = list(self._processes.values())
-            while not all(p.is_alive() for p in processes):
+            while not all(
+                p.is_alive() or p.exitcode is not None for p in processes
+            ):
                 time.sleep(1e-3)
 
     def _wait_job_completion(self):
